@@ -188,6 +188,13 @@ func everySite(t *testing.T, prop string) {
 				post, out, res := runVictim(e, h, victim, pre, plan)
 				msg := judgeFault(e, h, victim, pre, post, out, res, true)
 				e.Cleanup()
+				if msg != "" && knownStalePointer && out.CommitErr != nil && strings.Contains(out.CommitErr.Error(), "refetchAndMergeModifications failed to find item with key") && mixesShiftsAndPointers(h.Txns[victim]) {
+					// a refused lock sent the commit through refetch-and-merge, where the recorded C04 finding (stale tracked
+					// item pointer after an add/remove shifted the slots; depends on map order) made the merge fail half-way:
+					// what the half-done merge had re-tracked is all the rollback knows about
+					rec.Exclude("the commit failed inside refetch-and-merge with the signature of the recorded C04 finding (stale tracked item pointer); its leftovers are not judged")
+					continue
+				}
 				if msg != "" && os.Getenv("VERIF_C07_COLLECT") != "" {
 					fmt.Printf("COLLECT %s.%s false=%v :: %s @@ %s\n", dry.Trace[k].Comp, dry.Trace[k].Method, asFalse, firstLine(msg), h.Render())
 					msg = ""
@@ -207,6 +214,25 @@ func everySite(t *testing.T, prop string) {
 		}
 		rec.Sample("shape", map[string]any{"history": h.Render(), "commit_calls": n, "sites": siteNames(dry.Trace)})
 	})
+}
+
+var knownStalePointer = stats.Known("C04", "tracked-item-pointer-stale-after-slot-shift")
+
+// mixesShiftsAndPointers: the program tracks existing items (reads, updates, cursor operations) and also adds or removes
+// items, which shifts the slots those tracked pointers refer to.
+func mixesShiftsAndPointers(p txh.TxnProg) bool {
+	shifts, pointers := false, false
+	for _, o := range p.Ops {
+		switch {
+		case strings.HasPrefix(o.Kind, "add") || o.Kind == "remove" || o.Kind == "curRemove" || o.Kind == "upsert" || o.Kind == "rmv":
+			shifts = true
+		}
+		switch {
+		case o.Kind == "scan" || strings.HasPrefix(o.Kind, "get") || strings.HasPrefix(o.Kind, "find") || strings.HasPrefix(o.Kind, "update") || strings.HasPrefix(o.Kind, "cur") || o.Kind == "rmw" || o.Kind == "upsert" || o.Kind == "rmv":
+			pointers = true
+		}
+	}
+	return shifts && pointers
 }
 
 func siteNames(tr []txh.Site) []string {
